@@ -268,6 +268,43 @@ def insert_await_asserts(body, inv, skip=None, debt=None):
             break
         at = pos + m.start()
         if skip and skip in out[max(0, at - 200):at]:
+            # Side condition of skipping (X12): the skipped await may not sit in a loop that does not record its
+            # progress, otherwise it is reachable from itself with unrecorded progress and no assertion in between.
+            j = at
+            bad = False
+            for _ in range(8):
+                j = enclosing_open_brace(out, j)
+                if j <= 0:
+                    break
+                head = out[stmt_start(out, j):j]
+                if re.search(r'\b(while|loop|for)\b', head):
+                    cb = match_close(out, j)
+                    # end of the statement that contains the await (depth of the loop body)
+                    depth = 0
+                    e = at
+                    while e < cb:
+                        n2 = skip_literal(out, e)
+                        if n2 != e:
+                            e = n2
+                            continue
+                        c = out[e]
+                        if c in '{([':
+                            depth += 1
+                        elif c in '})]':
+                            depth -= 1
+                        elif c == ';' and depth <= 0:
+                            break
+                        e += 1
+                    if 'set_written(' not in out[e:cb]:
+                        bad = True
+                    break
+            if bad:
+                st = stmt_start(out, at)
+                marker = '\n\x00AWAITS:%d\x00\n' % k
+                out = out[:st] + marker + out[st:]
+                pos = at + len(marker) + len('.await')
+                k += 1
+                continue
             pos = at + len('.await')
             continue
         cur = at
@@ -313,6 +350,8 @@ def apply_rules(card, sig, body, log):
         sig = re.sub(r'\b%s\b' % re.escape(a), b, sig)
         body = re.sub(r'\b%s\b' % re.escape(a), b, body)
         log.append({'rule': 'X0', 'match': 'use-alias %s => %s' % (a, b)})
+    if INLINABLE and card.path.split('::')[-1] not in INLINABLE:
+        body = inline_helpers(body, log)
     run('X1', R.x1_logging)
     for (rule, old, new) in card.bodysubs:
         if old not in body:
@@ -644,11 +683,18 @@ def emit_fn(card, repo, out, info, twin=False, assumed_here=False):
     body_hash = hashlib.sha256()
     for kind, text in hinted:
         if kind == 'body':
-            for piece in re.split(r'(\x00HINT:\w+\x00|\x00AWAIT:\d+\x00|\x00AWAITD:\d+:\d+\x00)', text):
+            for piece in re.split(r'(\x00HINT:\w+\x00|\x00AWAIT:\d+\x00|\x00AWAITD:\d+:\d+\x00|\x00AWAITS:\d+\x00)', text):
                 mm = re.match(r'\x00HINT:(\w+)\x00', piece)
                 ma = re.match(r'\x00AWAIT:(\d+)\x00', piece)
                 md = re.match(r'\x00AWAITD:(\d+):(\d+)\x00', piece)
-                if md:
+                ms = re.match(r'\x00AWAITS:(\d+)\x00', piece)
+                if ms:
+                    # a write await (not assertable: the packet bytes are borrowed) inside a loop that does not call
+                    # set_written: the bytes accepted in one iteration are unrecorded at the next iteration's await
+                    out.add('        assert(false); // write progress held only in a local across an await',
+                            {'fn': fid, 'part': 'await', 'clause': 'await%s.debt' % ms.group(1), 'tags': ['C13', 'C01', 'C15']})
+                    rec.setdefault('awaits', []).append('await%s.debt' % ms.group(1))
+                elif md:
                     # X25: an await while an inbound publish that was already taken from the reader lives only in a local
                     out.add('        assert(!(__debt%s is %s));' % (md.group(2), card.opts['debt'].split('|')[2]),
                             {'fn': fid, 'part': 'await', 'clause': 'await%s.debt' % md.group(1), 'tags': ['C13', 'C04']})
@@ -823,10 +869,113 @@ def can_auto_extract(repo, tname, fname):
     return find_auto(repo, tname, fname) is not None
 
 
+# X26: helpers introduced by a refactoring (no card) that are plain straight-line code are inlined at their call
+# sites, so that the callers are verified against their own contracts as before.  name -> (params, body)
+INLINABLE = {}
+
+
+def build_inlinable(repo, auto):
+    INLINABLE.clear()
+    for (tname, fname) in auto:
+        rel = find_auto(repo, tname, fname)
+        if rel is None:
+            continue
+        src, clean = load(repo, rel)
+        start, bopen, bclose = find_fn(clean, tname, fname)
+        head = clean[start:bopen]
+        body = src[bopen + 1:bclose]
+        cbody = clean[bopen + 1:bclose]
+        fi = head.index(fname)
+        pi = head.index('(', fi)
+        if re.search(r'\basync\b', head) or '<' in head[fi + len(fname):pi]:
+            continue
+        if re.search(r'\breturn\b|\?|\.await\b|\b(loop|while|for)\b|\bSelf\b', cbody):
+            continue
+        pm = head[pi + 1:]
+        depth = 0
+        end = 0
+        for i_, c in enumerate(pm):
+            if c == '(':
+                depth += 1
+            elif c == ')':
+                if depth == 0:
+                    end = i_
+                    break
+                depth -= 1
+        plist = [x.strip() for x in pm[:end].split(',') if x.strip()]
+        if not plist or not re.fullmatch(r'&?\s*(mut\s+)?self', plist[0]):
+            continue
+        names = []
+        ok = True
+        for prm in plist[1:]:
+            mm = re.fullmatch(r'(mut\s+)?(\w+)\s*:\s*[^,]+', prm)
+            if not mm:
+                ok = False
+                break
+            names.append(mm.group(2))
+        if not ok:
+            continue
+        INLINABLE[fname] = (names, blank_logging(body))
+
+
+def blank_logging(body):
+    return body
+
+
+def inline_helpers(body, log):
+    """Rule X26: `RECV.helper(ARGS)` -> `{ let __aK = ARGK; ..; BODY[self := RECV] }` for every helper of INLINABLE."""
+    for name, (params, hbody) in INLINABLE.items():
+        pat = re.compile(r'((?:\w+\.)*\w+)\.%s\(' % re.escape(name))
+        pos = 0
+        while True:
+            m = pat.search(body, pos)
+            if not m:
+                break
+            recv = m.group(1)
+            a0 = m.end()
+            depth = 0
+            i_ = a0
+            args = []
+            cur = a0
+            while i_ < len(body):
+                n2 = skip_literal(body, i_)
+                if n2 != i_:
+                    i_ = n2
+                    continue
+                c = body[i_]
+                if c in '([{':
+                    depth += 1
+                elif c in ')]}':
+                    if depth == 0:
+                        break
+                    depth -= 1
+                elif c == ',' and depth == 0:
+                    args.append(body[cur:i_].strip())
+                    cur = i_ + 1
+                i_ += 1
+            last = body[cur:i_].strip()
+            if last:
+                args.append(last)
+            if len(args) != len(params):
+                pos = m.end()
+                continue
+            hb = re.sub(r'\bself\b', recv, hbody)
+            lets = ''
+            for k_, (pn, av) in enumerate(zip(params, args)):
+                hb = re.sub(r'\b%s\b' % re.escape(pn), '__a%d' % k_, hb)
+                lets += 'let __a%d = %s; ' % (k_, av)
+            rep = '{ ' + lets + hb.strip() + ' }'
+            body = body[:m.start()] + rep + body[i_ + 1:]
+            pos = m.start() + len(rep)
+            log.append({'rule': 'X26', 'match': 'inlined helper %s at %s.%s(..)' % (name, recv, name)})
+    return body
+
+
 def generate(repo, template_paths, twin=False, only=None, auto=()):
     """Returns (text, meta_per_line, info)."""
     out = Output()
     info = {'functions': [], 'types': [], 'consts': [], 'lemmas': [], 'trusted': []}
+    build_inlinable(repo, auto)
     for tp in template_paths:
         lines = open(tp).read().split('\n')
         i = 0
